@@ -112,9 +112,14 @@ def table(i, seed, shift=0.0):
     return t + np.float32(0.5 * (seed % 4) + shift)
 
 
-def other_table(q):
-    """Second table for double Q-learning: rows reversed and sign-flipped columns swapped -> unrelated argmaxes."""
-    return (q[::-1, ::-1] * np.float32(1.5) - np.float32(0.5)).astype(np.float32).copy()
+def other_table(q, spread=False):
+    """Second table for double Q-learning: rows reversed and sign-flipped columns swapped -> unrelated argmaxes.
+    spread: clearly different values per action (used with the near-tie table, whose own rows differ by one ulp only, so
+    that evaluating the wrong successor action in the OTHER table is visible)."""
+    o = (q[::-1, ::-1] * np.float32(1.5) - np.float32(0.5)).astype(np.float32).copy()
+    if spread:
+        o = (o + np.arange(o.shape[1], dtype=np.float32)[None, :] * np.float32(0.75)).astype(np.float32)
+    return o
 
 
 # -- locating helpers -------------------------------------------------------------------------
@@ -226,7 +231,7 @@ def work_single_td(item, col):
     entry = ENTRY[learner]
     al = item["alph"]
     Q = table(item["table"], seed)
-    Q2 = other_table(Q)
+    Q2 = other_table(Q, spread=item["table"] == "near")
     nS, nA = Q.shape
     if learner in ("ql", "sarsa"):
         fn = locate(col, {"ql": "q_learning", "sarsa": "sarsa"}[learner], "_update_policy",
@@ -239,7 +244,7 @@ def work_single_td(item, col):
     if fn is None:
         return
     jQ, jQ2 = jnp.asarray(Q), jnp.asarray(Q2)
-    key = jax.random.key(seed)
+    keys = [jax.random.key(seed + i) for i in range(5)]  # the update must not depend on the key: several are used
     Q64, Q264 = Q.astype(np.float64), Q2.astype(np.float64)
     sampled = 0
     found = Findings(col)
@@ -283,7 +288,7 @@ def work_single_td(item, col):
                     out = fn(q_table=jQ, observation=s, action=a, reward=r, next_observation=s2, next_action=a2,
                              gamma=g, terminated=term, learning_rate=lr)
                 elif learner == "dql":
-                    out = fn(key=key, q_table1=jQ, q_table2=jQ2, observation=s, action=a, reward=r,
+                    out = fn(key=keys[(s + 2 * s2 + a + int(lr * 10)) % 5], q_table1=jQ, q_table2=jQ2, observation=s, action=a, reward=r,
                              next_observation=s2, gamma=g, learning_rate=lr, terminated=term)
                 else:
                     out = fn(obs=s, act=a, reward=r, next_obs=s2, gamma=g, learning_rate=lr, q_table=jQ)
